@@ -539,7 +539,7 @@ def collect(ctx, rep, ml, fmt):
         bases += gen_xyz_bases(ml, rng, ngen)
     else:
         # texts with UNITY_* sections come right after isornitrate: they must always be truncated at EVERY line boundary
-        bases = bases[:1] + gen_unity_bases(ml, rng, 6 if not thorough else 25) + bases[1:] + gen_mol2_bases(ml, rng, ngen)
+        bases = bases[:1] + gen_unity_bases(ml, rng, 6 if not thorough else 25) + bases[1:] + gen_mol2_bases(ml, rng, ngen if thorough else 10)
     hangs = 0
     table = MolTable()
     base_lines, cases, meta, tokens = [], [], [], set()
@@ -573,7 +573,7 @@ def collect(ctx, rep, ml, fmt):
         plan = plan_damages(rng, lines, thorough, budget)
         # every planned damage goes through the implementation and the oracle; the comparison with the model inside Coq
         # re-parses the whole text per case, so for long texts it gets a sample (always incl. what the oracle flagged)
-        cap = max(80, (200_000 if thorough else 60_000) // max(len(lines), 1))
+        cap = max(80, (200_000 if thorough else 40_000) // max(len(lines), 1))
         in_coq = set(range(len(plan))) if len(plan) <= cap else set(rng.sample(range(len(plan)), cap)) | {0}
         for di, (d, kind) in enumerate(plan):
             if hangs >= MAX_HANGS:
